@@ -708,7 +708,8 @@ class AggregateWriter {
 
     async finish() {
         var all_keys = Array.from(this.aggregation_keys);
-        all_keys.sort();
+        // Keys are JSON-serialized arrays: compare the values, not the text ('["a b"]' < '["a"]' and '[10]' < '[9]' as strings)
+        all_keys.sort((a, b) => (a === null || b === null) ? 0 : (stable_compare(JSON.parse(a), JSON.parse(b)) || 0));
         for (var i = 0; i < all_keys.length; i++) {
             var key = all_keys[i];
             var out_fields = [];
